@@ -362,6 +362,24 @@ def r3(ctx, R):
             an = cfg.node_of(ad)
             if an is not None and pn is not None and pn.id in cfg.reachable_without({t for t, lab in an.succs if not (lab and lab[0] == "exc")}, set(), follow_exc=False) and not any(x is ad for x in ast.walk(lp or prune)):
                 add_first = ad
+        # the prune runs whenever an old version exists: a condition on how the routine was called
+        # (its parameters) lets one of the re-index paths install the new AST without pruning
+        cond_params = []
+        if lp is not None:
+            F3 = ctx.facts(f, interproc=False)
+            for fa in (F3.at(lp.iter) or F3.at(lp.body[0]) or set()):
+                if fa[0] in ("cond", "truthy", "falsy"):
+                    txt = fa[1]
+                    try:
+                        names = {n.id for n in ast.walk(ast.parse(txt, mode="eval")) if isinstance(n, ast.Name)}
+                    except SyntaxError:
+                        names = set()
+                    hit = sorted(n for n in names if n in f.params and n != (f.params[0] if f.cls else None))
+                    if hit:
+                        cond_params.append((txt if fa[0] != "falsy" and (len(fa) < 3 or fa[2] is not False) else f"not ({txt})", hit))
+        if cond_params:
+            txt, hit = cond_params[0]
+            R.violation("C10.R3", f.short, key(f, lp) + " :: unconditional", loc(f, lp), f"the previous version's entries are pruned only under `{txt}` (parameter {', '.join(hit)}): on the other re-index path the new AST is installed while names that the old version exported stay in the global table and keep pointing into the old tree")
         if uses_new:
             R.violation("C10.R3", f.short, key(f, lp), loc(f, lp), f"the prune loop walks the *new* AST's entries ({old_src}): names that only the old version defined are never removed")
         elif not reads:
